@@ -177,6 +177,24 @@ fn draws(_env: &Env, src: &mut Src<'_>) -> CaseResult {
             }
         }
     }
+    // sequential streams: value k of the stream is the low 64 bits of block (index k, offset 0)
+    {
+        use rand::RngCore;
+        let g = Gate::from("sequential");
+        let mut rngs: Vec<_> = eps.iter().map(|e| e.sequential(&g)).collect();
+        let count = 1 + (base as usize % 40);
+        for k in 0..count {
+            let vals: Vec<(u64, u64)> = rngs.iter_mut().map(|(l, r)| (l.next_u64(), r.next_u64())).collect();
+            for h in 0..3 {
+                if vals[h].1 != vals[(h + 1) % 3].0 {
+                    return Err(violation("neighbours-disagree", format!("sequential stream, value {k}"), json!({"k": k})));
+                }
+                if vals[h].1 != ref_block(&seeds[h], "sequential", k as u32, 0) as u64 {
+                    return Err(violation("differs-from-reference", format!("sequential stream value {k} is not the low half of reference block ({k}, 0)"), json!({"k": k})));
+                }
+            }
+        }
+    }
     kinds.sort();
     kinds.dedup();
     Ok(CaseOk::new(n_draws > 0, &(seeds, steps.len(), n_draws, base), json!({"steps": steps, "draws_compared": n_draws})).labels(kinds))
